@@ -10,7 +10,10 @@ namespace Mahotas.C11
 open Mahotas
 
 /-- kind: 0 None, 1 ndarray, 2 integer (bool/int), 3 anything else.
-    dcls: 0 other, 1 bool, 2 integer, 3 float32/64/128, 4 float16. flags: bit0 C-contiguous, bit1 writeable, bit2 aligned. -/
+    dcls: 0 other, 1 bool, 2 integer, 3 float32/64/128, 4 float16. flags: bit0 C-contiguous, bit1 writeable, bit2 aligned,
+    bit3 byte-swapped (not native byte order), bit4 some element is negative, bit5 some element is not finite.
+    ival: the value of an integer; for an array of integers its largest element (0 when empty or not integer).
+    tnum: numpy type number (`PyArray_TYPE`, `dtype.num`) of an array; nnz: number of non-zero elements of an array. -/
 structure Desc where
   kind  : Nat := 0
   ndim  : Nat := 0
@@ -18,6 +21,8 @@ structure Desc where
   flags : Nat := 0
   ival  : Int := 0
   shape : List Nat := []
+  tnum  : Nat := 0
+  nnz   : Nat := 0
 deriving Repr, Inhabited
 
 abbrev Env := String → Desc
@@ -31,10 +36,29 @@ inductive Atom
   | shapesDiffer (a b : String)             -- `a.shape != b.shape`
   | minDim2LeHalf (a s : String)            -- `min(a.shape[:2]) <= s // 2`
   | opaque (txt : String)                   -- a test the DSL does not interpret (never rejects in the model)
+  | ndimEq (a : String) (n : Nat)           -- `a.ndim == n`
+  | sizeZero (a : String)                   -- `a.size == 0`
+  | minNeg (a : String)                     -- `a.min() < 0`
+  | notAllFinite (a : String)               -- `not np.all(np.isfinite(a))`
+  | lenNeNdim (z a : String)                -- `len(z) != a.ndim`
+  | rankOutside (r bc : String)             -- `not (0 <= r < np.count_nonzero(bc))`
+  | minDimLeMax (o f : String)              -- `np.min(o.shape) <= f.max()`  (the maximum of `f` is `(env f).ival`)
+  | lenGeDimAt (w f ax : String)            -- negation of `len(w) < f.shape[ax]`
+  | whenArr (x : String) (inner : Atom)     -- `inner`, met only on a path every ndarray `x` takes
 deriving Repr, Inhabited
 
 def isArr (d : Desc) : Bool := d.kind == 1
 def isInt (d : Desc) : Bool := d.kind == 2
+def Desc.size (d : Desc) : Nat := shapeSize d.shape
+def Desc.hasNeg (d : Desc) : Bool := d.flags / 16 % 2 == 1
+def Desc.hasNonFinite (d : Desc) : Bool := d.flags / 32 % 2 == 1
+/-- `PyArray_ISCARRAY`: C-contiguous, writeable, aligned, native byte order -/
+def Desc.isCArray (d : Desc) : Bool := d.flags % 8 == 7 && d.flags / 8 % 2 == 0
+/-- `PyArray_ISCARRAY_RO`: C-contiguous, aligned, native byte order -/
+def Desc.isCArrayRO (d : Desc) : Bool := d.flags % 2 == 1 && d.flags / 4 % 2 == 1 && d.flags / 8 % 2 == 0
+def Desc.isContig (d : Desc) : Bool := d.flags % 2 == 1
+/-- a descriptor is well formed when its rank is the length of its shape -/
+def Desc.wf (d : Desc) : Prop := d.ndim = d.shape.length
 
 /-- does the guard atom raise on these arguments? Atoms about arguments that are not of the expected kind are
     not interpreted (the wrapper converts them first): the model then makes no claim. -/
@@ -49,6 +73,19 @@ def Atom.rejects (env : Env) : Atom → Bool
       isArr (env a) && isInt (env s) && decide (2 ≤ (env a).shape.length) &&
       decide ((min ((env a).shape.getD 0 0) ((env a).shape.getD 1 0) : Int) ≤ (env s).ival / 2)
   | .opaque _ => false
+  | .ndimEq a n => isArr (env a) && decide ((env a).ndim = n)
+  | .sizeZero a => isArr (env a) && decide ((env a).size = 0)
+  | .minNeg a => isArr (env a) && (env a).hasNeg
+  | .notAllFinite a => (env a).hasNonFinite
+  | .lenNeNdim z a => isArr (env z) && isArr (env a) && decide ((env z).ndim = 1) && decide ((env z).shape.getD 0 0 ≠ (env a).ndim)
+  | .rankOutside r bc => isInt (env r) && isArr (env bc) && !(decide (0 ≤ (env r).ival) && decide ((env r).ival < ((env bc).nnz : Int)))
+  | .minDimLeMax o f => isArr (env o) && isArr (env f) && decide ((env o).shape.length = 2) &&
+      decide ((min ((env o).shape.getD 0 0) ((env o).shape.getD 1 0) : Int) ≤ (env f).ival)
+  | .lenGeDimAt w f ax =>
+      !(isArr (env w) && isArr (env f) && isInt (env ax) && decide (0 ≤ (env ax).ival) &&
+        decide ((env ax).ival.toNat < (env f).shape.length) &&
+        decide ((env w).shape.getD 0 0 < (env f).shape.getD (env ax).ival.toNat 0))
+  | .whenArr x inner => isArr (env x) && inner.rejects env
 
 /-- all guards pass (no atom raises) -/
 def passes (gs : List Atom) (env : Env) : Bool := gs.all (fun g => !g.rejects env)
@@ -56,5 +93,81 @@ def passes (gs : List Atom) (env : Env) : Bool := gs.all (fun g => !g.rejects en
 /-- index of the first atom that raises -/
 def firstReject (gs : List Atom) (env : Env) : Option Nat :=
   (gs.zipIdx.find? (fun gi => gi.1.rejects env)).map (·.2)
+
+/-! ### native entry points (`py_*`): the tests of `if (…) { PyErr_SetString(…); return NULL; }` at the head of the
+function, split at the top-level `||`. Names are the C variables filled by `PyArg_ParseTuple`. The integer type numbers
+are numpy's `NPY_TYPES`; `canonT` identifies the numbers `PyArray_EquivTypenums` identifies on LP64 Linux
+(`NPY_LONGLONG` = `NPY_LONG`, `NPY_ULONGLONG` = `NPY_ULONG`). -/
+
+inductive NAtom
+  | parse (fmt : String)                     -- `!PyArg_ParseTuple(args, fmt, …)` (sets the error itself; not interpreted)
+  | notArrays (as : List String)             -- `!numpy::are_arrays(a, b, …)` / `!PyArray_Check(a)`
+  | shapesDiffer (a b : String)              -- `!numpy::same_shape(a, b)`
+  | typesDiffer (as : List String)           -- `!numpy::equiv_typenums(a, b, …)` (every one against the first)
+  | typeNotEquiv (a : String) (t : Nat)      -- `!numpy::check_type<T>(a)` / `!PyArray_EquivTypenums(PyArray_TYPE(a), NPY_X)`
+  | typeNe (a : String) (t : Nat)            -- `PyArray_TYPE(a) != NPY_X` (exact number)
+  | ndimNe (a : String) (n : Nat)            -- `PyArray_NDIM(a) != n`
+  | ndimEq (a : String) (n : Nat)            -- `PyArray_NDIM(a) == n`
+  | ndimsDiffer (a b : String)               -- `PyArray_NDIM(a) != PyArray_NDIM(b)`
+  | notCArray (a : String)                   -- `!PyArray_ISCARRAY(a)` / `!numpy::is_carray(a)`
+  | notCArrayRO (a : String)                 -- `!PyArray_ISCARRAY_RO(a)`
+  | notContig (a : String)                   -- `!PyArray_ISCONTIGUOUS(a)`
+  | sizeZero (a : String)                    -- `PyArray_SIZE(a) == 0`
+  | dimsDiffer (a : String) (i : Nat) (b : String) (j : Nat)   -- `PyArray_DIM(a,i) != PyArray_DIM(b,j)`
+  | dimNeNdim (a : String) (i : Nat) (b : String)              -- `PyArray_DIM(a,i) != PyArray_NDIM(b)`
+  | dimNe (a : String) (i n : Nat)           -- `PyArray_DIM(a,i) != n`
+  | intLt (x : String) (c : Int)             -- `x < c`
+  | intLe (x : String) (c : Int)             -- `x <= c`
+  | intGt (x : String) (c : Int)             -- `x > c`
+  | intGe (x : String) (c : Int)             -- `x >= c`
+  | opaque (txt : String)                    -- not interpreted (never rejects in the model)
+  | whenArr (x : String) (inner : NAtom)     -- `inner`, on the branch taken exactly when `PyArray_Check(x)`
+  | whenNotNone (x : String) (inner : NAtom) -- `inner`, on the branch taken exactly when `x != Py_None`
+deriving Repr, Inhabited
+
+def canonT (t : Nat) : Nat := if t == 9 then 7 else if t == 10 then 8 else t
+
+/-- does the native guard atom take the error exit? Atoms after the `are_arrays` test of the same chain dereference
+    their arguments as arrays; on a non-array the model makes no claim (the earlier atom has already rejected). -/
+def NAtom.rejects (env : Env) : NAtom → Bool
+  | .parse _ => false
+  | .notArrays as => as.any (fun a => !isArr (env a))
+  | .shapesDiffer a b => isArr (env a) && isArr (env b) && decide ((env a).shape ≠ (env b).shape)
+  | .typesDiffer as => as.all (fun a => isArr (env a)) &&
+      (match as with | [] => false | a :: rest => rest.any (fun b => canonT (env b).tnum != canonT (env a).tnum))
+  | .typeNotEquiv a t => isArr (env a) && canonT (env a).tnum != canonT t
+  | .typeNe a t => isArr (env a) && (env a).tnum != t
+  | .ndimNe a n => isArr (env a) && decide ((env a).ndim ≠ n)
+  | .ndimEq a n => isArr (env a) && decide ((env a).ndim = n)
+  | .ndimsDiffer a b => isArr (env a) && isArr (env b) && decide ((env a).ndim ≠ (env b).ndim)
+  | .notCArray a => isArr (env a) && !(env a).isCArray
+  | .notCArrayRO a => isArr (env a) && !(env a).isCArrayRO
+  | .notContig a => isArr (env a) && !(env a).isContig
+  | .sizeZero a => isArr (env a) && decide ((env a).size = 0)
+  | .dimsDiffer a i b j => isArr (env a) && isArr (env b) && decide (i < (env a).shape.length) && decide (j < (env b).shape.length) &&
+      decide ((env a).shape.getD i 0 ≠ (env b).shape.getD j 0)
+  | .dimNeNdim a i b => isArr (env a) && isArr (env b) && decide (i < (env a).shape.length) && decide ((env a).shape.getD i 0 ≠ (env b).ndim)
+  | .dimNe a i n => isArr (env a) && decide (i < (env a).shape.length) && decide ((env a).shape.getD i 0 ≠ n)
+  | .intLt x c => isInt (env x) && decide ((env x).ival < c)
+  | .intLe x c => isInt (env x) && decide ((env x).ival ≤ c)
+  | .intGt x c => isInt (env x) && decide ((env x).ival > c)
+  | .intGe x c => isInt (env x) && decide ((env x).ival ≥ c)
+  | .opaque _ => false
+  | .whenArr x inner => isArr (env x) && inner.rejects env
+  | .whenNotNone x inner => (env x).kind != 0 && inner.rejects env
+
+/-- no native guard takes its exit -/
+def npasses (gs : List NAtom) (env : Env) : Bool := gs.all (fun g => !g.rejects env)
+
+def nfirstReject (gs : List NAtom) (env : Env) : Option Nat :=
+  (gs.zipIdx.find? (fun gi => gi.1.rejects env)).map (·.2)
+
+/-! ### what a guard does when its test holds (T3) -/
+/-- 0 `raise` (Python); 1 sets a Python error (`PyErr_SetString`/`PyErr_NoMemory`/`PyErr_Format`/`throw PythonException`)
+    and returns NULL; 2 `!PyArg_ParseTuple` (sets the error itself) and returns NULL; 3 returns NULL/0 WITHOUT setting an
+    error (CPython turns it into `SystemError: NULL result without error`); 4 returns a value (an early successful exit:
+    the kernel is not reached; not an exception). -/
+def actionIsException (a : Nat) : Bool := a == 0 || a == 1 || a == 2
+def actionIsEarlyReturn (a : Nat) : Bool := a == 4
 
 end Mahotas.C11
